@@ -670,7 +670,11 @@ class SQLTranspiler(StructureVisitor, ASTTemplate):
             ds = self._get_dataset_structure(node.operand)
             name_override: Optional[str] = None
             if op == tokens.ISNULL and ds and len(ds.get_measures_names()) == 1:
-                name_override = "bool_var"
+                # Semantic analysis renames the single measure only when its type changes,
+                # so a Boolean measure keeps its name.
+                only_measure = ds.components[ds.get_measures_names()[0]]
+                if only_measure.data_type != Boolean:
+                    name_override = "bool_var"
 
             def _unary_expr(col_ref: str) -> str:
                 comp = ds.components.get(col_ref.strip('"')) if ds else None
